@@ -4,7 +4,7 @@ R06.adj     every non-singular leaf X of inverse()/gjInverse() satisfies X*M = I
             rational-function identities (under the equalities on the leaf's own path)
 R06.sing    every other leaf is the identity matrix (singular / overflow-guard exits)
 R06.guard   on the |det| < 1 path every slot divided by the determinant is guarded on that path by the
-            overflow test of the same slot; the |det| >= 1 path divides the same slots
+            STRICT overflow test |s| < |det|/min of the same slot (strictness also excludes det == 0); the |det| >= 1 path divides the same slots
 R06.inplace invert()/gjInvert() leave exactly the value graph of inverse()/gjInverse()
 R06.affine  the affine fast path and the general path are both exact inverses (unique), hence agree
 """
@@ -84,8 +84,9 @@ def guard_check(leaf, lits, d, lt):
         for c, val in lits:
             if c.op == 'fcmp' and c.attr in ('olt', 'ole'):
                 a, b = c.args
-                if val is True and is_abs_of(a, num) and is_scaled_abs_den(b): ok = True; break     # |s| < mr
-                if val is False and is_abs_of(b, num) and is_scaled_abs_den(a): ok = True; break    # !(mr <= |s|)
+                # the test must be STRICT: |s| < |det|/min also excludes det == 0 (otherwise 0/0 on an exactly singular matrix)
+                if val is True and c.attr == 'olt' and is_abs_of(a, num) and is_scaled_abs_den(b): ok = True; break     # |s| < mr
+                if val is False and c.attr == 'ole' and is_abs_of(b, num) and is_scaled_abs_den(a): ok = True; break    # !(mr <= |s|)
         if not ok:
             missing.append(k)
     return divided, missing
